@@ -19,14 +19,17 @@ Variable ring : bool.
 Variable len : N.            (* buffer length *)
 Variable flags : N.
 Variable in_len : N.
-Variable sched : list (N * option N).   (* (bytes offered, budget) *)
+Variable pre : list (N * option N).     (* items used once *)
+Variable npre : N.
+Variable sched : list (N * option N).   (* (bytes offered, budget), used cyclically afterwards *)
 Variable nsched : N.
 Variable max_calls : N.
 
 Definition drive_turn (s : dstate) : dstate + (why * dstate) :=
   if max_calls <=? ds_calls s then inr (WCap, s)
   else
-    let '(nin, bud) := nth (N.to_nat (ds_calls s mod nsched)) sched (0, None) in
+    let '(nin, bud) := if ds_calls s <? npre then nth (N.to_nat (ds_calls s)) pre (0, None)
+                       else nth (N.to_nat ((ds_calls s - npre) mod nsched)) sched (0, None) in
     let end_ := N.min (ds_in_off s + nin) in_len in
     let chunk := firstn (N.to_nat (end_ - ds_in_off s)) (ds_in s) in
     let fl := N.lor flags (if end_ <? in_len then 2 else 0) in
@@ -62,9 +65,9 @@ Definition drive_run (s : dstate) : why * dstate :=
   end.
 End Drive.
 
-Definition drive (input : list N) (ring : bool) (len fill flags : N) (sched : list (N * option N))
+Definition drive (input : list N) (ring : bool) (len fill flags : N) (pre sched : list (N * option N))
            (start : option (dec * arr)) : why * dstate :=
   let '(d, b) := match start with Some p => p | None => (dec_default, amake len fill) end in
-  drive_run ring len flags (N.of_nat (length input)) sched (N.of_nat (length sched)) 200000
+  drive_run ring len flags (N.of_nat (length input)) pre (N.of_nat (length pre)) sched (N.of_nat (length sched)) 200000
             {| ds_dec := d; ds_buf := b; ds_in := input; ds_in_off := 0; ds_out_pos := 0; ds_rout := [];
                ds_calls := 0; ds_stall := 0; ds_trace := []; ds_last := 99%Z |}.
